@@ -164,6 +164,36 @@ def pumpSeq (clamp : Nat) (t : Tuning) :
     let rest := pumpSeq clamp t bs o.chunker o.mem o.reader
     (o.res :: rest.1, rest.2)
 
+/-! ### Specification: the segments of a stream -/
+
+/-- A piece of the stream with its byte range `[start, stop)`. -/
+structure Seg where
+  bytes : List UInt8
+  start : Nat
+  stop : Nat
+  deriving Repr, DecidableEq
+
+/-- Scan left to right: `cur` is the piece collected since `start`; every `FE FD`
+met closes the current piece and is skipped (so occurrences never overlap). -/
+def segScan : Nat → List UInt8 → List UInt8 → List Seg
+  | start, cur, a :: b :: t =>
+    if a = FE ∧ b = FD then ⟨cur, start, start + cur.length⟩ :: segScan (start + cur.length + 2) [] t
+    else segScan start (cur ++ [a]) (b :: t)
+  | start, cur, [a] => [⟨cur ++ [a], start, start + cur.length + 1⟩]
+  | start, cur, [] => [⟨cur, start, start + cur.length⟩]
+
+/-- The maximal `FE FD`-free pieces of a stream (empty ones included), in order,
+with their byte ranges.  A stream with `n` delimiters has `n + 1` segments. -/
+def segments (s : List UInt8) : List Seg := segScan 0 [] s
+
+/-- The same pieces read off a chunk sequence: `Data` extends the current piece,
+`Sentinel` closes it, `Eof` changes nothing. -/
+def regroup : Nat → List UInt8 → List Chunk → List Seg
+  | start, cur, [] => [⟨cur, start, start + cur.length⟩]
+  | start, cur, .sentinel off :: cs => ⟨cur, start, start + cur.length⟩ :: regroup off [] cs
+  | start, cur, .eof :: cs => regroup start cur cs
+  | start, cur, .data _ bs :: cs => regroup start (cur ++ bs) cs
+
 /-! ### `StreamReader::next_record_bytes` -/
 
 /-- `StreamAction`. -/
